@@ -554,7 +554,7 @@ int main (int argc, char **argv)
 		int ki, ri, si;
 		int c15 = !strcmp (PROP, "C15");
 		if (c15) {
-			int kmax = thorough ? 24 : 12, rmax = thorough ? 16 : 10, smax = thorough ? 20 : 5;
+			int kmax = thorough ? 32 : 12, rmax = thorough ? 16 : 10, smax = thorough ? 50 : 5;
 			for (k = 1; k <= kmax; k++) for (r = 3; r <= rmax; r++) for (N1 = 3; N1 <= r && N1 <= 10; N1++) {
 				for (s = 1; s <= smax; s++) add_pt (3, 0, k, r, N1, s, k + 2, 0);
 				if (thorough) { add_pt (3, 0, k, r, N1, 16807, k + 2, 0); add_pt (3, 0, k, r, N1, 2147483646, k + 2, 0); }
@@ -573,6 +573,10 @@ int main (int argc, char **argv)
 							add_pt (3, 0, k, r, N1, thorough ? seeds_t[si] : seeds_q[si], k + 2, pf);
 						}
 				}
+			}
+			if (thorough) {	/* many seeds on the small shapes: 'depends only on (k,n,N1,seed)' for seeds the fixed list does not contain */
+				int sd;
+				for (k = 1; k <= 12; k++) for (r = 3; r <= 12; r++) for (N1 = 3; N1 <= r && N1 <= 7; N1++) for (sd = 4; sd <= 120; sd++) add_pt (3, 0, k, r, N1, sd * 7 + (sd & 3), k + 2, sd % NPREFIX);
 			}
 			{	/* symbol lengths x buffer alignments on two small codes (encoder side of C07 / C06) */
 				int L, al2;
